@@ -67,7 +67,8 @@ META = {
 INITIAL = {1: 10, 2: 20}
 # c/u/d: `Cls(id=..)`, `Cls.get(k).v = x`, `Cls.get(k).destroySelf()` inside the body; U/D: assignment / destroySelf on an
 # instance the program obtained BEFORE the call on the hub's connection (by get or from a select)
-ALPHABET = ['c3', 'c1', 'u1', 'd1', 'u2', 'U1', 'D2']
+# s: `list(Cls.select())` inside the body (a read through the transaction)
+ALPHABET = ['c3', 'c1', 'u1', 'd1', 'u2', 'U1', 'D2', 's']
 K_STALE_RB = 'C08:stale-after-rollback:preloaded-instance-assigned-in-body'
 DUP_ID, NF_ID = 1000001, 1000002
 _env = {}
@@ -218,6 +219,8 @@ class Worker(threading.Thread):
                         cls.get(k).destroySelf()
                     elif op == 'U':
                         pre[k].v = v
+                    elif op == 's':
+                        rec['selected'] = sorted(o.id for o in cls.select())
                     else:
                         pre[k].destroySelf()
                 if raise_at == len(steps):
@@ -370,6 +373,9 @@ def fmt_rows(rows):
 def concrete_steps(word):
     out = []
     for pos, sym in enumerate(word):
+        if sym == 's':
+            out.append(('s', 0, 0))
+            continue
         op, k = sym[0], int(sym[1:])
         out.append((op, k, {'c': 30, 'u': 100, 'd': 0, 'U': 200, 'D': 0}[op] + pos))
     return out
@@ -377,6 +383,8 @@ def concrete_steps(word):
 
 def step_token(st):
     op, k, v = st
+    if op == 's':
+        return 's'
     return '%s%d' % (op, k) if op in 'dD' else '%s%d=%d' % (op, k, v)
 
 
@@ -401,6 +409,8 @@ def reference(steps, raise_at, kind, exc_id):
         elif op == 'U':
             if k in rows:
                 rows[k] = v
+        elif op == 's':
+            pass
         else:
             rows.pop(k, None)
     if raise_at == len(steps):
@@ -432,8 +442,8 @@ def gen_cases(ctx):
                 elif ln == 3 or (thorough and ln == 4):
                     sel = [(combos[n % 12], modes[n % 2])]
                 else:
-                    # the longest bodies: a fixed fifth of them (all raise points), configuration rotating
-                    if (hash_word(word) + (0 if thorough else 0)) % 5 != 0:
+                    # the longest bodies: a fixed eighth of them (all raise points), configuration rotating
+                    if hash_word(word) % 8 != 0:
                         continue
                     sel = [(combos[n % 12], modes[(n // 12) % 2])]
                 for (cfg, ac), mode in sel:
@@ -447,7 +457,7 @@ def gen_cases(ctx):
 def hash_word(word):
     h = 0
     for sym in word:
-        h = h * 7 + ALPHABET.index(sym)
+        h = h * 11 + ALPHABET.index(sym)
     return h
 
 
